@@ -26,12 +26,12 @@ MANDATORY = ["herald_with_photon", "herald_in_ne_out", "post_selection_rejects",
              "lossy", "predicate_post_selection", "rule_post_selection", "error_rate_checked", "rule_added_in_place", "expected_in_other_order"]
 DECIDING = ["rel_analyzer_vs_sampler", "rel_quick_vs_sampler", "rel_simulator_vs_sampler", "rel_performance"]
 BUDGET = {"quick": 30, "thorough": 480}
-ASSUMPTIONS = ["relations are checked between the objects' own results: absolute tolerance 1e-7 plus the documented 1e-9 "
+ASSUMPTIONS = ["relations are checked between the objects' own results: absolute tolerance 1e-10 plus the documented 1e-9 "
                "per-state truncation of the sampler times the number of loss-mode patterns; for ratios (error rate, "
                "renormalised quick-sampler distribution) that allowance is divided by the accepted total",
                "quick sampler with vacuum input and threshold detectors is a degenerate case and is not judged"]
 
-TOL = 1e-7
+TOL = 1e-10
 
 
 def make_post_selection(lw, rng, k):
